@@ -34,6 +34,7 @@ class Device:
         self.version_latency = 0.0  # None = never answer
         self.version_plan = []  # per-probe latency overrides
         self.probes = []  # (t, conn_id) of every version probe seen
+        self.answers = []  # (t_probe, t_answer, conn_id)
         self.write_hook = None  # fn(conn, data) before a write is logged (fault injection)
         self.partial = {}
         self.dropped_inject = 0
@@ -92,9 +93,10 @@ class Device:
     def _outbound_line(self, line, conn):
         if line == VERSION_PROBE:
             self.probes.append((self.sim.now, conn.conn_id))
-            if self.auto_version:
+            if self.auto_version and not getattr(conn, "eof", False) and not getattr(conn, "reset", False):
                 lat = self.version_plan.pop(0) if self.version_plan else self.version_latency
                 if lat is not None:
+                    self.answers.append((self.sim.now, self.sim.now + max(0.0, lat), conn.conn_id))
                     reply = b"0;255;3;0;2;2.3.2\n"
                     if lat <= 0:
                         self.inject(reply, conn)
@@ -122,9 +124,14 @@ class _Conn:
         self.write_exc = None  # exception to raise on next write
         self.eof = False
         self.cancelled = False
+        self.opened_at = device.sim.now
+        self.closed_at = None
+        self.closed_by = None  # role of the thread that closed it
         device.attach(self)
 
     def deliver(self, data):
+        if self.eof or getattr(self, "reset", False):
+            return  # the peer is gone: nothing arrives any more
         self.inbuf.extend(data)
         self._wake_reader("data")
 
@@ -213,6 +220,9 @@ class FakeSerial(_Conn):
     def close(self):
         if self.is_open:
             self.is_open = False
+            self.closed_at = self.sim.now
+            cur = self.sim.current
+            self.closed_by = cur.role if cur is not None else None
             self.sim.ev("conn_close", self.conn_id)
             self._wake_reader("closed")
 
@@ -271,6 +281,9 @@ class FakeSocket(_Conn):
     def close(self):
         if self.is_open:
             self.is_open = False
+            self.closed_at = self.sim.now
+            cur = self.sim.current
+            self.closed_by = cur.role if cur is not None else None
             self.sim.ev("conn_close", self.conn_id)
             self._wake_reader("closed")
 
